@@ -40,21 +40,24 @@ def job_history(ctx, jr, seqs):
         ents = [(True, mk_str('fail'), e.alloc(st, T([], 'harness::Fail'))), (True, mk_str('ok'), e.alloc(st, T([], 'harness::Ok')))]
         for name, ty in REAL.items(): ents.append((True, mk_str(name), e.alloc(st, T([mk_str('std')], ty))))
         commands = T([M(ents), M([])], 'types::command::Commands')
-        instrs = []; desc = []
+        instrs = []; desc = []; srcs = []
         # spec state
         flag = False; last = dict(d=False, msg=S(0, []), line=S(0, []), src=S(0, []))
         vars_d = [False] * len(OUTS); vars_v = [S(0, [])] * len(OUTS)
-        alive = True; fail_msg = S(0, []); fail_line = 0; fail_src = False
+        alive = True; fail_msg = S(0, []); fail_line = 0; fail_src = 0
         for k, op in enumerate(seq):
             cmd = OPS[op]
-            oi = e.fresh_int('i%d.out' % k, 0, len(OUTS)); ln = e.fresh_int('i%d.line' % k, 1, 9); hs = e.fresh_bool('i%d.src' % k)
+            oi = e.fresh_int('i%d.out' % k, 0, len(OUTS)); ln = e.fresh_int('i%d.line' % k, 1, 9); sx = e.fresh_int('i%d.src' % k, 0, 2); hs = sx > 0
+            srcs.append(sx)
+            if k > 0: e.assume(z3.Implies(srcs[0] > 0, sx > 0))        # a run from a file gives every instruction a source
             mi = e.fresh_int('i%d.msg' % k, 0, len(MSGS) - 1); fi = e.fresh_int('i%d.flag' % k, 0, len(FLAGS) - 1)
             args = []
             if op == 'T': args = [choose(mi, MSGS)]
             if op == 'X': args = [choose(fi, FLAGS)]
             if op == 'F': msgs[k] = choose(mi, MSGS)
-            desc.append((op, oi, ln, hs, mi, fi))
-            meta = T([some(ln), E(OPTION, zite(hs, 1, 0), {0: [], 1: [mk_str('f.ds')]})], 'types::instruction::InstructionMetaInfo')
+            desc.append((op, oi, ln, sx, mi, fi))
+            srcname = merge(sx == 1, mk_str('f.ds'), mk_str('g.ds'))
+            meta = T([some(ln), E(OPTION, zite(hs, 1, 0), {0: [], 1: [srcname]})], 'types::instruction::InstructionMetaInfo')
             si_ = T([none(), opt_choose(oi, OUTS), some(mk_str(cmd)), some(V(len(args), args)) if args else none()], 'types::instruction::ScriptInstruction')
             instrs.append(T([meta, E('types::instruction::InstructionType', 2, {2: [si_]})], 'types::instruction::Instruction'))
             # ---- spec
@@ -63,10 +66,10 @@ def job_history(ctx, jr, seqs):
             if is_err:
                 m = choose(mi, MSGS)
                 fatal = zand(alive, flag)
-                fail_msg = merge(fatal, m, fail_msg); fail_line = zite(fatal, ln, fail_line); fail_src = zite(fatal, hs, fail_src)
+                fail_msg = merge(fatal, m, fail_msg); fail_line = zite(fatal, ln, fail_line); fail_src = zite(fatal, sx, fail_src)
                 surv = zand(alive, znot(flag))
                 last = dict(d=zor(last['d'], surv), msg=merge(surv, m, last['msg']), line=merge(surv, S(1, [ln + 48]), last['line']),
-                            src=merge(surv, merge(hs, mk_str('f.ds'), S(0, [])), last['src']))
+                            src=merge(surv, merge(hs, srcname, S(0, [])), last['src']))
                 outp, outv = True, mk_str('false')
                 step_alive = alive
                 alive = zand(alive, znot(flag))
@@ -103,13 +106,13 @@ def job_history(ctx, jr, seqs):
                 checks.append(('the failure carries the error message', zimp(znot(okc), str_eq(msg_, fail_msg))))
                 if 1 in meta_o.p:
                     meta = meta_o.p[1][0]
-                    checks.append(('the failure carries the failing line and source', zimp(znot(okc), zand(zeq(meta_o.d, 1), zeq(meta.f[0].d, 1), zeq(meta.f[0].p[1][0], fail_line), zeq(zeq(meta.f[1].d, 1), fail_src)))))
+                    checks.append(('the failure carries the failing line and source', zimp(znot(okc), zand(zeq(meta_o.d, 1), zeq(meta.f[0].d, 1), zeq(meta.f[0].p[1][0], fail_line), zeq(zeq(meta.f[1].d, 1), fail_src > 0), zimp(fail_src > 0, str_eq(meta.f[1].p[1][0], merge(zeq(fail_src, 1), mk_str('f.ds'), mk_str('g.ds'))))))))
         for msg, c in checks: e.obligations.append(Obligation(rs.g, c, 'C10 %s: %s' % (''.join(seq), msg), 'assert', 'oracle'))
 
         def extract(m, o=None):
             lines = []
             for (op, oi, ln, hs, mi, fi) in desc:
-                lines.append(dict(op=OPS[op], out=OUTS[solve.model_int(m, oi) - 1] if solve.model_int(m, oi) else None, line=solve.model_int(m, ln),
+                lines.append(dict(op=OPS[op], out=OUTS[solve.model_int(m, oi) - 1] if solve.model_int(m, oi) else None, line=solve.model_int(m, ln), src=solve.model_int(m, hs),
                                   msg=MSGS[solve.model_int(m, mi)], flag=FLAGS[solve.model_int(m, fi)]))
             return dict(kind='c10', ops=lines)
         res = discharge_known(e, jr, PID, {}, extract)
@@ -117,14 +120,33 @@ def job_history(ctx, jr, seqs):
         H.finish_job(jr, e, res)
 
 
-def py_model(ops):
+def layout(ops):
+    """files for a native run: the main script is the text (first instruction without source) or the file named like
+    the first instruction's source; consecutive instructions of another source go into one included file"""
+    names = {1: 'f.ds', 2: 'g.ds'}
+    main_src = ops[0].get('src', 0)
+    main = []; files = {}; pos = []; cur = None; cur_src = None
+    main_name = names.get(main_src, '')
+    for k, op in enumerate(ops):
+        sx = op.get('src', 0)
+        if sx == main_src:
+            cur = None; main.append(k); pos.append((len(main), main_name))
+        else:
+            if sx == 0: return None       # an instruction without source inside a file run: not realisable
+            if cur is None or cur_src != sx:
+                cur = 'inc%d_%s' % (len(files), names[sx]); cur_src = sx; files[cur] = []; main.append('!include_files @DIR@/%s' % cur)
+            files[cur].append(k); pos.append((len(files[cur]), cur))
+    return main, files, pos, main_name
+
+
+def py_model(ops, pos):
     flag = False; last = None; vars_ = {}; ok = True; err = None
     for k, op in enumerate(ops):
         c = op['op']; out = op['out']; res = None
         if c in ('fail', 'trigger_error'):
             if out: vars_[out] = 'false'
-            if flag: ok = False; err = (op['msg'], k + 1); break
-            last = (op['msg'], str(k + 1), ''); continue
+            if flag: ok = False; err = (op['msg'], pos[k][0], pos[k][1] or None); break
+            last = (op['msg'], str(pos[k][0]), pos[k][1]); continue
         if c == 'exit_on_error':
             flag = op['flag'].lower() not in ('', '0', 'false', 'no'); res = 'true' if flag else 'false'
         elif c == 'get_last_error': res = last[0] if last else None
@@ -138,23 +160,32 @@ def py_model(ops):
 
 
 def replayer(v):
-    # native: script text (line numbers are the physical lines, so the python model uses k+1), no source file
-    lines = []; queue = []
-    for op in v['ops']:
+    ops = v['ops']; queue = []
+    def text(op):
         pre = (op['out'] + ' = ') if op['out'] else ''
-        if op['op'] == 'fail': lines.append(pre + 'fail'); queue.append(op['msg'])
-        elif op['op'] == 'trigger_error': lines.append(pre + 'trigger_error "%s"' % op['msg'])
-        elif op['op'] == 'exit_on_error': lines.append(pre + 'exit_on_error "%s"' % op['flag'])
-        else: lines.append(pre + op['op'])
-    out = H.replay(dict(mode='scripted_sdk', script='\n'.join(lines), recorders=['ok'], recorder_output='v', failers=['fail'], fail_messages=queue)); v['native'] = out
+        if op['op'] == 'fail': return pre + 'fail'
+        if op['op'] == 'trigger_error': return pre + 'trigger_error "%s"' % op['msg']
+        if op['op'] == 'exit_on_error': return pre + 'exit_on_error "%s"' % op['flag']
+        return pre + op['op']
+    lay = layout(ops)
+    if lay is None: return (None, 'source assignment not realisable by a native run')
+    main, files, pos, main_name = lay
+    for op in ops:
+        if op['op'] == 'fail': queue.append(op['msg'])
+    script = '\n'.join(x if isinstance(x, str) else text(ops[x]) for x in main)
+    fcont = {name: '\n'.join(text(ops[k]) for k in ks) for name, ks in files.items()}
+    case = dict(mode='scripted_sdk', script=script, files=fcont, recorders=['ok'], recorder_output='v', failers=['fail'], fail_messages=queue)
+    if main_name:
+        fcont[main_name] = script; case['entry'] = main_name      # run from a file: include paths are absolute (@DIR@ is replaced in files too)
+    out = H.replay(case); v['native'] = out
     if out.get('panic'): return (True, 'native panic')
-    ok, err, vars_ = py_model(v['ops']); v['spec'] = dict(ok=ok, err=err, vars=vars_)
+    ok, err, vars_ = py_model(ops, pos); v['spec'] = dict(ok=ok, err=err, vars=vars_)
     if bool(out.get('ok')) != ok: return (True, 'native ok=%r, protocol says %r' % (out.get('ok'), ok))
     if ok:
         got = {k: x for k, x in out['vars'].items() if k in OUTS}
         return (got != vars_, 'native vars %r, protocol %r' % (got, vars_))
     er = out['error']
-    return (er.get('message') != err[0] or er.get('line') != err[1], 'native error %r, protocol %r' % (er, err))
+    return (er.get('message') != err[0] or er.get('line') != err[1] or (er.get('source') or None) != err[2], 'native error %r, protocol %r' % (er, err))
 
 
 def main(tier, seed):
